@@ -45,12 +45,12 @@ def _adopt(ctx, eng, pfx, what, only=None):
     return n
 
 
-def collect_rule(ctx, prog):
+def collect_rule(ctx, prog, pfx='C04', only=None):
     f = prog.func('encode', 'collect')
     eng = rleabs.Engine(prog, f)
     entries = eng.run()
     kinds = set(entries)
-    n = _adopt(ctx, eng, 'C04', 'collect()')
+    n = _adopt(ctx, eng, pfx, 'collect()', only=only)
     if not any(bad for ok, bad, d in eng.results.values()):
         # anti-vacuity (only meaningful for a walk without findings: a violating path ends where it is found)
         ctx.floor('C04 collect(): carried run states reached', len(kinds & {0, 1, 2, 3, 'T'}), 5)
@@ -71,7 +71,7 @@ def collect_rule(ctx, prog):
     return entries
 
 
-def flush_rule(ctx, prog, entries):
+def flush_rule(ctx, prog, entries, pfx='C04'):
     f = prog.func('encode', 'encode')
     eng = rleabs.Engine(prog, f, final=True)
     # every state the carry rule of collect() admits (whether or not this collect() reaches it)
@@ -90,7 +90,7 @@ def flush_rule(ctx, prog, entries):
     ctx.floor('C04 encode(): walks of the prologue', eng.visited, len(entries) + 4)
     if not any(r == 'flush' for r, _ in eng.results) or not any(r == 'count' for r, _ in eng.results):
         raise AnalysisBroken('C04: encode() stores no count byte for an open run on any path')
-    _adopt(ctx, eng, 'C04', 'encode()', only=('flush', 'count', 'capacity', 'data'))
+    _adopt(ctx, eng, pfx, 'encode()', only=('flush', 'count', 'capacity', 'data'))
 
 
 # ---------------------------------------------------------------------------------------------- compress.c
